@@ -54,6 +54,36 @@ def run(ctx):
             ctx.ok("R1", f"group {reg.key}: every read in every history serves what the canonical order serves", site=site,
                    sample={"states": ex.states, "transitions": ex.transitions, "example history": ex.samples[-1] if ex.samples else []})
         # hasattr probes agree with the canonical outcome (hasattr is a read that swallows AttributeError)
+    # cross-group: loading one group (by a read or by a direct init) leaves what the other groups serve unchanged
+    canon = {}
+    for reg in regs:
+        lw.restore(lw.boot_snapshot)
+        A = lw.atoms(lw.P)
+        lw.read(A["Fe"], reg.names[0])
+        canon[reg.key] = {(an, nm): lw.read(a, nm) for an, a in A.items() for nm in reg.names}
+    npairs = 0
+    for g1 in regs:
+        for how in ("read", "init"):
+            for g2 in regs:
+                if g2.key == g1.key:
+                    continue
+                lw.restore(lw.boot_snapshot)
+                A = lw.atoms(lw.P)
+                try:
+                    if how == "read":
+                        lw.read(A["Fe[56]"], g1.names[0])
+                    else:
+                        lw.init_call(g1.key, lw.P)()
+                except SymRaise:
+                    continue
+                bad = [(an, nm, lw.read(A[an], nm)) for (an, nm), want in canon[g2.key].items() if lw.read(A[an], nm) != want]
+                npairs += 1
+                if bad:
+                    ctx.fail("R3", f"loading {g1.key} ({how}) then reading {g2.key}",
+                             f"after {g1.key} was loaded by a {how}, {bad[0][0]}.{bad[0][1]} serves {_short(bad[0][2], 70)} instead of "
+                             f"{_short(canon[g2.key][(bad[0][0], bad[0][1])], 70)}", f"periodictable/__init__.py core.delayed_load({g2.names})")
+    ctx.ok("R3", "loading any group (by a read or a direct init) does not change what the other groups serve", site="periodictable/__init__.py",
+           sample={"ordered pairs x 2 ways": npairs})
     ctx.extra["states"] = total_states
     ctx.extra["transitions"] = total_trans
     ctx.extra["traces_validated_against_impl"] = 0
